@@ -33,6 +33,7 @@ ENTRY = dict(
             "event_manager.py behaves as the machine": "correspondence (trace inclusion: schedule accepted, same invocation log, data, task states, waiter results and virtual times)",
         },
         assumptions=COMMON_ASSUME + [
+            "a callback is identified as the event manager identifies it (==): a plain function, a bound method (a new but equal object at every attribute access) and the same callback behind a filter that lets every value through are ONE callback function of the machine; the harness subscribes all three flavours and always unsubscribes by the raw callback",
             "callbacks interact with the manager only by suspending and returning (they do not subscribe/dispatch themselves); values are naturals",
             "a timed wait that was woken is resumed before its deadline passes (the harness never lets the clock pass a deadline with a woken waiter pending)",
             "timeouts and event times are quantised so that a deadline never coincides with an arrival",
